@@ -51,6 +51,17 @@ fn fmt_content_range(start: u64, end_inclusive: u64, size: u64) -> String {
     format!("bytes {start}-{end_inclusive}/{size}")
 }
 
+/// copy a side file (metadata, internal info) of the source object to the destination object;
+/// if the source object has none, the one of the destination is removed
+async fn copy_side_file(src: &Path, dst: &Path) -> io::Result<()> {
+    if src.exists() {
+        let _ = fs::copy(src, dst).await?;
+    } else if dst.exists() {
+        fs::remove_file(dst).await?;
+    }
+    Ok(())
+}
+
 #[async_trait::async_trait]
 impl S3 for FileSystem {
     #[tracing::instrument]
@@ -103,10 +114,16 @@ impl S3 for FileSystem {
 
         debug!(from = %src_path.display(), to = %dst_path.display(), "copy file");
 
-        let src_metadata_path = self.get_metadata_path(bucket, key, None)?;
-        if src_metadata_path.exists() && !is_same_object {
+        if !is_same_object {
+            // the copy takes over the metadata and the checksums of the source,
+            // it must not keep those of an object it replaces
+            let src_metadata_path = self.get_metadata_path(bucket, key, None)?;
             let dst_metadata_path = self.get_metadata_path(&input.bucket, &input.key, None)?;
-            let _ = try_!(fs::copy(src_metadata_path, dst_metadata_path).await);
+            try_!(copy_side_file(&src_metadata_path, &dst_metadata_path).await);
+
+            let src_info_path = self.get_internal_info_path(bucket, key)?;
+            let dst_info_path = self.get_internal_info_path(&input.bucket, &input.key)?;
+            try_!(copy_side_file(&src_info_path, &dst_info_path).await);
         }
 
         let md5_sum = self.get_md5_sum(bucket, key).await?;
